@@ -254,6 +254,15 @@ def run(ctx):
             visits = [(bb, t) for bb, t in b.calls() if (t["call"].get("trait") or "") == "serde_core::de::Visitor"]
             good = len(parses) == 1 and [tystr(x) for x in parses[0][1]["call"]["substs"]] == [ty] and len(visits) == 1 and visits[0][1]["call"]["name"] == vis
             if good:
+                # the parse is attempted for every string key: nothing but "is it a string" decides whether it happens
+                # (a syntactic pre-filter — leading zero, sign — refuses keys the type's own parser accepts, e.g. "0.5")
+                pre = []
+                for sbb, allowed, allv in dt.edge_conditions(cfg, parses[0][0]):
+                    atom = dt.switch_atom(b, sbb)
+                    if atom[0] != "discr":
+                        pre.append(atom[0] if atom[0] != "call" else atom[1]["call"]["name"])
+                ctx.check(not pre, "R13.3", b.loc(), f"key|{m}|no-prefilter", f"key coercion {m}: whether the key text is parsed depends on {pre}; every string key must be handed to the type's parser", instance=f"key {m}: parse attempted for every string key", nontrivial=False)
+            if good:
                 good = dt.dominated_by_success(cfg, F, parses[0][0], visits[0][0])
                 tr = Tracer(b)
                 good = good and ("call", parses[0][0]) in {s if s[0] != "field" else s[1] for s in tr.sources(visits[0][1]["args"][1])}
@@ -272,6 +281,13 @@ def run(ctx):
             ctx.check(good, "R13.3", b.loc(), f"key|{m}", f"key coercion {m}: must parse the key text as {ty} and hand the parsed value to {vis} (found parse::<{[tystr(x) for t_ in parses for x in t_[1]['call']['substs']]}>, visits {[t_[1]['call']['name'] for t_ in visits]})",
                       instance=f"key {m}: str::parse::<{ty}> -> {vis}")
     ctx.floor("R13.3", "key coercion rows", rows, 13)
+    for ki in key_impl:
+        kany = c.methods_of_impl(ki).get("deserialize_any")
+        if kany is not None:
+            vis_ = [t["call"]["name"] for x in [kany] + c.closures_of(kany) for _, t in x.calls() if (t["call"].get("trait") or "") == "serde_core::de::Visitor"]
+            fwd_ = [t["call"]["name"] for _, t in kany.calls() if (t["call"].get("trait") or "") == "serde_core::de::Deserializer"]
+            ctx.check(not vis_ and fwd_ == ["deserialize_any"], "R13.3", kany.loc(), "key|deserialize_any|forward", f"the key deserializer's deserialize_any visits {vis_} / forwards to {fwd_}: an untyped view of a key must replay the key as it is (a string stays that string)",
+                      instance="key deserialize_any -> Any::deserialize_any")
     # ---------------- R13.4 option
     for owner, methods in (("Any", dm),) + tuple((ty_adt(k["self_ty"]).split("::")[-1], c.methods_of_impl(k)) for k in key_impl):
         b = methods.get("deserialize_option")
@@ -308,6 +324,21 @@ def run(ctx):
                       f"{who}: a success return is reachable without the element / field having been stored (or handed to the sibling method that stores it): values given to the carrier must not be dropped, whatever they serialize to",
                       instance=f"{who}: every Ok return follows the store")
     ctx.floor("R13.6", "element-adding methods of the compound serializers", nadd, 4)
+    # (a') ... and refuse nothing on their own account: the only errors of serialize_key / serialize_element / serialize_field are
+    #      those of the nested serializer (a carrier that rejects, say, binary keys is not lossless); serialize_value may report
+    #      a missing key
+    for i in scope:
+        if (i.get("trait") or "").split("::")[-1] not in COMPOUND or not (i.get("trait") or "").startswith("serde_core::ser::"):
+            continue
+        for mname, mb in sorted(c.methods_of_impl(i).items()):
+            if mname not in ADD + ("serialize_key",):
+                continue
+            fam_ = [mb] + c.closures_of(mb)
+            own = [t["call"]["def"] for x in fam_ for _, t in x.calls() if t["call"]["name"] in ("custom", "invalid_value", "invalid_type") and "Error" in t["call"]["def"]]
+            limit = 1 if mname == "serialize_value" else 0
+            ctx.check(len(own) <= limit, "R13.6", mb.loc(), f"{ty_adt(i['self_ty'])}|{i['trait'].split('::')[-1]}|{mname}|refuses-nothing",
+                      f"{(ty_adt(i['self_ty']) or '?').split('::')[-1]}::{mname} constructs {len(own)} error(s) of its own ({own}): the carrier must accept every key / element the nested serializer produced",
+                      instance=f"{(ty_adt(i['self_ty']) or '?').split('::')[-1]}::{mname}: no refusal of its own", nontrivial=False)
     # (b) variant serializers: the single key of the {variant: payload} map is the *variant* name (4th parameter), the enum's
     #     type name (2nd parameter, same type &'static str) goes nowhere
     for mname, mb in sorted(ms.items()):
